@@ -251,7 +251,12 @@ def parse_version_info(version_str: str, raw_pattern: str = "{pycalver}") -> ver
         )
         raise version.PatternError(err_msg)
     else:
-        return _parse_version_info(match.groupdict())
+        try:
+            return _parse_version_info(match.groupdict())
+        except ValueError as ex:
+            # e.g. "day is out of range for month" for 2021.02.30
+            err_msg = f"Invalid version string '{version_str}' for pattern '{raw_pattern}': {ex}"
+            raise version.PatternError(err_msg)
 
 
 def is_valid(version_str: str, raw_pattern: str = "{pycalver}") -> bool:
